@@ -802,7 +802,7 @@ package server
 //@   pure
 
 //@ unit (*DsManager).DeleteDataset
-//@   prop C07 C14
+//@   prop C07 C14 C04 C19
 //@   ghost idG int = 0
 //@   ghost unregG int = 0
 //@   requires dsm != nil && dsm.store != nil && !has($held, addrOf(dsm.lock))
@@ -824,7 +824,7 @@ package server
 //@     ghost unregG := unregG + 1
 //@   at call deleteValue#1 before
 //@     assert [C07:deleted-set-persisted-before-the-record-is-removed] has($persisted, "deleteddatasets") && has(dsm.store.deletedDatasets, existingDataset.InternalID)
-//@     assert [C07,C19:dataset-leaves-both-registries-before-its-record-is-removed] unregG == 2
+//@     assert [C07,C19,C04,C14:dataset-leaves-both-registries-before-its-record-is-removed] unregG == 2
 //@   at call storeEntity#1 before
 //@     assert [C07,C19:core-entity-written-after-the-dataset-left-the-registries] unregG == 2 && $recordsDeleted == old($recordsDeleted) + 1
 //@   at call GetEntity#1
